@@ -880,6 +880,72 @@ Section C02.
 End C02.
 
 (* ------------------------------------------------------------------ *)
+(* the ordered conformance used by C01 is conformance plus the TypedDict key order *)
+Lemma forallb_impl_in {A} (p q: A -> bool) l :
+  (forall x, In x l -> p x = true -> q x = true) -> forallb p l = true -> forallb q l = true.
+Proof.
+  induction l as [|a l IH]; intros H Hp; [reflexivity|].
+  cbn [forallb] in *. apply andb_prop in Hp. destruct Hp as [Ha Hl].
+  rewrite (H a (or_introl eq_refl) Ha). apply IH; [|exact Hl]. intros x Hx. apply H. right. exact Hx.
+Qed.
+
+Lemma nt_all_impl_in {X} (p q: sfield -> X -> bool) fds (l: list X) :
+  (forall f x, In x l -> p f x = true -> q f x = true) -> nt_all p fds l = true -> nt_all q fds l = true.
+Proof.
+  revert fds. induction l as [|x l IH]; intros fds H Hp; destruct fds as [|f r]; try discriminate Hp; [reflexivity|].
+  cbn [nt_all] in *. apply andb_prop in Hp. destruct Hp as [Ha Hl].
+  rewrite (H f x (or_introl eq_refl) Ha). apply IH; [|exact Hl]. intros f0 x0 Hx. apply H. right. exact Hx.
+Qed.
+
+Section ConfMono.
+  Variable E : senv.
+  Definition mono_ok (v: pv) : Prop := forall t, conf_ord E v t = true -> conf E v t = true.
+
+  Theorem conf_ord_conf : forall v, mono_ok v.
+  Proof.
+    induction v as [ | b | z | f | s | m b | l IHl | l IHl | fr l IHl | kvs IHk | c fs IHf | e m | k w | c l IHl | tg ]
+      using pv_rect'; unfold mono_ok.
+    all: intros t; induction t as [ | | | | | | m' | k' | e' | t' IHt | fr' t' IHt | t' IHt | ts | kt IHkt vt IHvt | t' IHt | c' | c' | c' ];
+      intros HC; rewrite conf_unfold in HC; rewrite conf_unfold; try exact HC; try discriminate HC.
+    (* Optional *)
+    all: try solve [ cbn [is_none orb] in HC |- *; apply IHt; exact HC ].
+    (* homogeneous containers *)
+    all: try solve [ try (apply andb_prop in HC; destruct HC as [Hfr HC]; rewrite Hfr; cbn [andb]);
+                     refine (forallb_impl_in _ _ _ _ HC); intros x Hx Hc; apply (Forall_In _ _ IHl x Hx); exact Hc ].
+    - (* fixed tuple *)
+      revert ts HC. induction l as [|x l IHl']; intros ts HC; destruct ts as [|t1 ts]; try discriminate HC; [reflexivity|].
+      apply andb_prop in HC. destruct HC as [Cx Cl]. inversion IHl as [|? ? Qx Ql]; subst.
+      rewrite (Qx t1 Cx). apply (IHl' Ql ts Cl).
+    - (* dict *)
+      apply andb_prop in HC. destruct HC as [Hnd HC]. rewrite Hnd. cbn [andb].
+      refine (forallb_impl_in _ _ _ _ HC). intros [k x] Hp Hc. apply andb_prop in Hc. destruct Hc as [Ck Cx].
+      destruct (Forall_In _ _ IHk (k, x) Hp) as [Qk Qx]. cbn [fst snd] in Qk, Qx. rewrite (Qk kt Ck), (Qx vt Cx). reflexivity.
+    - (* TypedDict: drop the order, keep the rest *)
+      destruct (sfind E _ c') as [k0|]; [|discriminate HC].
+      apply andb_prop in HC. destruct HC as [HC _]. apply andb_prop in HC. destruct HC as [HC HCf]. rewrite HC. cbn [andb].
+      rewrite andb_true_r. cbv zeta in HCf |- *.
+      refine (forallb_impl_in _ _ _ _ HCf). intros f _ Hc.
+      rewrite (look_map (conf_g true E) kvs) in Hc. rewrite (look_map (conf_g false E) kvs).
+      destruct (look kvs (sf_name f)) as [x|] eqn:El; cbn [option_map] in *; [|exact Hc].
+      destruct (look_In _ _ _ El) as [key [Hin _]].
+      apply (proj2 (Forall_In _ _ IHk (key, x) Hin)). exact Hc.
+    - (* dataclass *)
+      apply andb_prop in HC. destruct HC as [Hc HC]. rewrite Hc. cbn [andb].
+      destruct (sfind E _ c') as [k0|]; [|discriminate HC].
+      revert HC. generalize (sc_fields k0) as fds. intros fds. revert fds.
+      induction fs as [|[n x] fs IHfs]; intros fds HC; destruct fds as [|f fds]; try discriminate HC; [reflexivity|].
+      apply andb_prop in HC. destruct HC as [HC Cr]. apply andb_prop in HC. destruct HC as [Hn Cx].
+      inversion IHf as [|? ? Qx Qr]; subst. cbn [snd] in Qx.
+      rewrite Hn, (IHfs Qr fds Cr). cbn [andb]. rewrite andb_true_r.
+      destruct (sfield_nullable f && is_none x); [reflexivity|]. cbn [orb] in *. apply Qx. exact Cx.
+    - (* NamedTuple *)
+      apply andb_prop in HC. destruct HC as [Hc HC]. rewrite Hc. cbn [andb].
+      destruct (sfind E _ c') as [k0|]; [|discriminate HC].
+      refine (nt_all_impl_in _ _ _ _ _ HC). intros f x Hx Hq. apply (Forall_In _ _ IHl x Hx). exact Hq.
+  Qed.
+End ConfMono.
+
+(* ------------------------------------------------------------------ *)
 (* C03: the generated unpacker equals the reference decoder on every input *)
 Section C03.
   Variable E : senv.
